@@ -317,6 +317,12 @@ func (ex *Exec) symElemLoad(p SymElemPtr) Value {
 	if hi >= uint64(len(p.Elems)) {
 		hi = uint64(len(p.Elems)) - 1
 	}
+	if lo > hi {
+		panic(pathEnd{"empty symbolic index range"})
+	}
+	if _, isView := p.Elems[lo].(View); isView {
+		return ex.symElemLoadView(p, lo, hi)
+	}
 	var res *T
 	for k := int64(hi); k >= int64(lo); k-- {
 		e, ok := p.Elems[k].(*T)
@@ -329,17 +335,53 @@ func (ex *Exec) symElemLoad(p SymElemPtr) Value {
 			res = c.Ite(c.Eq(p.Idx, c.Const(p.Idx.s.W, uint64(k))), e, res)
 		}
 	}
-	if res == nil {
-		panic(pathEnd{"empty symbolic index range"})
-	}
 	return res
+}
+
+// symElemLoadView selects one of several strings by a symbolic index without
+// forking: the result is a fresh object whose length and bytes are ite-chains.
+func (ex *Exec) symElemLoadView(p SymElemPtr, lo, hi uint64) Value {
+	c := ex.c
+	maxN := int64(0)
+	for k := lo; k <= hi; k++ {
+		v, ok := p.Elems[k].(View)
+		if !ok {
+			panic(unsupported{"symbolic index into mixed elements"})
+		}
+		m := ex.maxLen(v)
+		if m < 0 || m > 256 {
+			panic(unsupported{"symbolic index into long strings"})
+		}
+		if m > maxN {
+			maxN = m
+		}
+	}
+	sel := func(k uint64) *T { return c.Eq(p.Idx, c.Const(p.Idx.s.W, k)) }
+	ln := p.Elems[hi].(View).Len
+	for k := int64(hi) - 1; k >= int64(lo); k-- {
+		ln = c.Ite(sel(uint64(k)), p.Elems[k].(View).Len, ln)
+	}
+	cells := make([]*T, maxN)
+	for j := int64(0); j < maxN; j++ {
+		jt := ex.intConst(j)
+		cell := ex.viewRead(p.Elems[hi].(View), jt)
+		for k := int64(hi) - 1; k >= int64(lo); k-- {
+			cell = c.Ite(sel(uint64(k)), ex.viewRead(p.Elems[k].(View), jt), cell)
+		}
+		cells[j] = cell
+	}
+	o := ex.newByteObj(ex.intConst(maxN), maxN, &layer{kind: lCells, cells: cells}, "select")
+	o.readonly = true
+	return View{O: o, Off: ex.intConst(0), Len: ln, Cap: ln}
 }
 
 func (ex *Exec) symElemStore(p SymElemPtr, v Value) {
 	c := ex.c
 	nv, ok := v.(*T)
 	if !ok {
-		panic(unsupported{"symbolic-index store of non-scalar"})
+		k := ex.concretize(p.Idx, 0, int64(len(p.Elems))-1)
+		ex.storeInto(&p.Elems[k], v)
+		return
 	}
 	lo, hi := c.urange(p.Idx)
 	if hi >= uint64(len(p.Elems)) {
